@@ -866,7 +866,8 @@ func vfEstabCase(f []string) string {
 // real wire bytes both ways through both real Dispatch functions, real runners, real timers.  Faults address the
 // k-th control packet (ZLBs and retransmissions count) of a direction (a = LAC->LNS, b = LNS->LAC):
 //   x<dir><k> drop it, u<dir><k> deliver it twice, l<dir><k> deliver it 300 ms late (reordering),
-//   v<dir><k> deliver it now AND a copy 300 ms late (duplicate + delay).
+//   v<dir><k> deliver it now AND a copy 300 ms late (duplicate + delay), X<dir><k> lose every packet from the k-th on
+//   (the retransmissions run out: the dead callback of startTunnelRunner must unregister the tunnel).
 //   f<dir><k>: the k-th WRITE ATTEMPT of that side's transport returns an error (runner.sendBody -> channel); k counts
 //   attempts, the other kinds count the writes that succeeded.
 // The bring-up is SCCRQ / SCCRP / SCCCN+ICRQ / ICRP / ICCN.  Result after the exchange has settled (both sessions
@@ -884,7 +885,14 @@ func vfE2ECase(f []string) string {
 	lnsIP := net.IPv4(10, 0, 0, 2).To4()
 	type fault struct{ drop, dup, late, lateDup, fail bool }
 	faults := map[string]fault{}
+	dropFrom := map[string]int{} // X<dir><k>: every packet of that direction from the k-th on is lost (the link is cut)
 	for _, t := range f {
+		if len(t) >= 3 && t[0] == 'X' {
+			if v, err := strconv.Atoi(t[2:]); err == nil {
+				dropFrom[t[1:2]] = v
+			}
+			continue
+		}
 		if len(t) < 3 {
 			continue
 		}
@@ -949,6 +957,9 @@ func vfE2ECase(f []string) string {
 			count++
 			mu.Unlock()
 			fl := faults[fmt.Sprintf("%s%d", dir, k)]
+			if from, ok := dropFrom[dir]; ok && k >= from {
+				fl = fault{drop: true}
+			}
 			if fl.lateDup && !fl.drop {
 				cp := append([]byte(nil), wire...)
 				go func() {
@@ -1072,6 +1083,17 @@ func vfE2ECase(f []string) string {
 	return fmt.Sprintf("e2e lac=T%dS%d,%s lns=T%dS%d,%s est=%d%d", t1, s1, q1, t2, s2, q2, b(e1), b(e2))
 }
 
+// watchdog budget of a case: 20 s, plus the wait a real-time e2e case asks for
+func vfBudget(line string) time.Duration {
+	f := strings.Fields(line)
+	if len(f) >= 2 && f[0] == "e2e" && strings.HasPrefix(f[1], "w") {
+		if v, err := strconv.Atoi(f[1][1:]); err == nil {
+			return time.Duration(v)*time.Millisecond + 20*time.Second
+		}
+	}
+	return 20 * time.Second
+}
+
 func vfDispGuard(line string) string {
 	done := make(chan string, 1)
 	go func() {
@@ -1110,7 +1132,7 @@ func vfDispGuard(line string) string {
 	select {
 	case r := <-done:
 		return r
-	case <-time.After(20 * time.Second):
+	case <-time.After(vfBudget(line)):
 		return "hang"
 	}
 }
